@@ -29,6 +29,13 @@ def loops(ctx, binp):
     out, crashed = ctx.nocrash(out, "C18:crash")
     out2 = ctx.run_vh(binp, ["c18-conc"])
     out2, crashed2 = ctx.nocrash(out2, "C18:crash:concurrent")
+    # the same concurrent clients once more under the race detector: the modifiers are one object per instance, called from
+    # every connection's goroutine - state shared between two requests shows as a data race whether or not this run's
+    # interleaving garbles a chain (a loaded machine runs the goroutines less in parallel)
+    binr = ctx.build(out="vh-race", race=True)
+    out3 = ctx.run_vh(binr, ["c18-conc"], timeout=900)
+    out3, crashed3 = ctx.nocrash(out3, "C18:loop:concurrent-clients:data-race")
+    out2 = out2 + [dict(r, name=r["name"] + ":race-build") for r in out3]
     out = out + out2
     for r in out:
         ctx.evaluations += 1
